@@ -3,7 +3,7 @@ import json
 import os
 
 from cfg import Inconclusive, Fn, op_place, show, walk, strip_casts
-from common import (calls_to, callee, callee_names, field_chain, fn_of, get_fn, head_sources, peel, site,
+from common import (config_effects, calls_to, callee, callee_names, field_chain, fn_of, get_fn, head_sources, peel, site,
                     guards_of, ret_aggregates, uses_of_local, is_diverging, field_assigns)
 from engine import VERIF
 
@@ -54,26 +54,23 @@ def rule_constants(ctx):
         ctx.ok("Config::DEFAULT.initial_char_class", "= Whitespace (start of haystack counts as a whitespace boundary)")
     else:
         ctx.violation("config::Config::DEFAULT|initial_char_class|1", "matcher/src/config.rs", "Config::DEFAULT.initial_char_class = %s, documented Whitespace" % ic)
-    # path configuration: constant field stores in match_paths / set_match_paths
+    # path configuration: final value of every bonus field after match_paths / set_match_paths (whatever the
+    # statement shapes: field stores, struct-update literals, helpers)
     for name in ("config::Config::match_paths", "config::Config::set_match_paths"):
         fn = get_fn(facts, M, name)
-        got = {}
-        for fld in ("bonus_boundary_white", "bonus_boundary_delimiter", "initial_char_class"):
-            for bi, si, s in field_assigns(fn, fld, "config::Config"):
-                if si == "term":
-                    continue
-                e = fn.expr_of_rvalue(s["rv"])
-                if e[0] == "const":
-                    got[fld] = e[1]
-                elif e[0] == "agg":
-                    got[fld] = e[1].rsplit("::", 1)[1]
-                else:
-                    got[fld] = show(e)
-        want = {"bonus_boundary_white": 8, "initial_char_class": "Delimiter"}
-        if got == want:
-            ctx.ok(site(fn, 0), "path configuration: whitespace bonus 8, initial class Delimiter, delimiter bonus unchanged")
+        want = {"bonus_boundary_white": ("const", 8), "bonus_boundary_delimiter": ("unchanged",), "initial_char_class": ("enum", "Delimiter"),
+                "normalize": ("unchanged",), "ignore_case": ("unchanged",), "prefer_prefix": ("unchanged",)}
+        bad = None
+        npaths = 0
+        for conds, final, get in config_effects(fn):
+            npaths += 1
+            got = {f: get(f) for f in want}
+            if got != want and bad is None:
+                bad = {k: v for k, v in got.items() if v != want[k]}
+        if bad is None and npaths:
+            ctx.ok(site(fn, 0), "path configuration: whitespace bonus 8, initial class Delimiter, every other scoring field unchanged (%d path(s))" % npaths)
         else:
-            ctx.violation("%s|fields|1" % name, site(fn, 0), "path configuration writes %s, documented %s" % (got, want))
+            ctx.violation("%s|fields|1" % name, site(fn, 0), "path configuration leaves %s, documented %s" % (bad, {k: want[k] for k in (bad or {})}))
 
 
 # ---------------------------------------------------------------- bonus_for abstract table
